@@ -21,7 +21,7 @@ META = {
                    "helper chain on a symbolic table of psi derivatives with non-constant fpol; the reference curl(b/B) is obtained by AD of the real value functions, "
                    "then projected on grad x = grad psi, grad y and grad z written from the property's definitions.",
     "bounds": "all of psi's first and second partial derivatives, fpol, fpol', R>=1, hy>0, beta (|t|<=3/4 param.) free reals; both signs of Bp; I = 0 and I free",
-    "out": "agreement of the 'x-y derivatives' formulation to discretisation error (a limit statement); curvature_smoothing",
+    "out": "the size of the discretisation error of the 'x-y derivatives' formulation (its algebra with exact derivatives and its DDX/DDY stencils are decided); curvature_smoothing",
     "assumptions": ["|Bpxy| = |grad psi|/R and Btxy = fpol/R at the point (what geometry1 computes; decided under C02/C03); grad psi direction by rational parametrisation",
                     "RectBivariateSpline contract as in C18", "reals not doubles"],
 }
@@ -102,6 +102,76 @@ def _mk(orthogonal, bpsign, free_I):
                      curl_zeta / R - (f / R) * hy / (Bp * R) * got["curl_bOverB_y"] - Ival * got["curl_bOverB_x"])
         for c in "xyz":
             env.claim_eq("bxcv%s=B/2*curl^%s" % (c, c), got["bxcv" + c], Bxy / 2 * got["curl_bOverB_" + c])
+    return body
+
+
+def _mk_xy(bpsign, free_I=False):
+    """'curl(b/B) with x-y derivatives' (orthogonal grids) with its DDX/DDY finite differences replaced by the EXACT derivatives along the grid
+    directions (d/dx = grad(.).grad(psi)/|grad psi|^2, d/dy = hy * t_hat.grad(.), t_hat along increasing y) equals the 'curl(b/B)' formulation
+    of the same region, component by component.  hy's radial derivative is the one an orthogonal grid has: d(hy)/dx = hy*div(n_hat)/|grad psi|."""
+    import re
+
+    def body(env):
+        tab = PsiTable(env)
+        R, Z = env.real("R", lo=1, hi=99), env.real("Z", lo=-99, hi=99)
+        f, fp = env.real("fpol"), env.real("fpolprime")
+        hy = env.real("hy", pos=True)
+        g = env.real("gradpsi_mag", lo=0.1, hi=9)
+        u = env.real("gradpsi_dir", lo=-3, hi=3)
+        c, sn = (1 - u * u) / (1 + u * u), 2 * u / (1 + u * u)
+        tab.pR, tab.pZ = g * c, g * sn
+        Ival = env.real("I") if free_I else 0.0
+        Rj = Jet2(R, 1, 0)
+        gj = Jet2(g, tab.pRR * c + tab.pRZ * sn, tab.pRZ * c + tab.pZZ * sn)            # |grad psi| and its gradient H.n_hat
+        Bpj = gj / Rj * bpsign
+        fj = Jet2(f, fp * tab.pR, fp * tab.pZ)
+        Btj = fj / Rj
+        B2j = Bpj * Bpj + Btj * Btj
+        b = B2j.v.sqrt() if env.mode == "sym" else float(B2j.v) ** 0.5                  # |B| (square-root auxiliary: b^2 reduces to Bp^2+Bt^2)
+        Bj = Jet2(b, B2j.dR / (2 * b), B2j.dZ / (2 * b))
+        nRj, nZj = Jet2(tab.pR, tab.pRR, tab.pRZ) / gj, Jet2(tab.pZ, tab.pRZ, tab.pZZ) / gj
+        divn = nRj.dR + nZj.dZ
+        tR, tZ = bpsign * sn, -bpsign * c                                                 # unit vector along Bp*bpsign = along increasing y
+        gam = env.real("dhy_dy_free")
+        hyj = Jet2(hy, hy * divn * c + gam * tR, hy * divn * sn + gam * tZ)
+        fields = {"Rxy": Rj, "Bpxy": Bpj, "Btxy": Btj, "Bxy": Bj, "hy": hyj}
+
+        def ev(expr):
+            return eval(re.sub(r"#(\w+)", r"fields['\1']", expr), {"fields": fields})
+
+        seen = []
+
+        def DDX(expr):
+            E = Jet2.lift(ev(expr))
+            seen.append(("DDX", expr))
+            return _same(env, 1, 1, (E.dR * tab.pR + E.dZ * tab.pZ) / (g * g))
+
+        def DDY(expr):
+            E = Jet2.lift(ev(expr))
+            seen.append(("DDY", expr))
+            return _same(env, 1, 1, hy * (E.dR * tR + E.dZ * tZ))
+
+        out = {}
+        with sym_numpy(env, mla_mod, mesh_mod):
+            e0 = make_equilibrium(env, tab, jets=False)
+            e0.fpol = lambda psi: f
+            e0.fpolprime = lambda psi: fp
+            for ctype in ("curl(b/B) with x-y derivatives", "curl(b/B)"):
+                r = stub_region(1, 1, True, curvature_type=ctype)
+                r.meshParent = types.SimpleNamespace(equilibrium=e0)
+                r.bpsign = bpsign
+                r.Rxy, r.Zxy = _same(env, 1, 1, R), _same(env, 1, 1, Z)
+                r.Bpxy, r.Btxy, r.Bxy, r.hy = _same(env, 1, 1, Bpj.v), _same(env, 1, 1, f / R), _same(env, 1, 1, b), _same(env, 1, 1, hy)
+                r.I = _same(env, 1, 1, Ival)
+                r.DDX, r.DDY = DDX, DDY
+                with field_numpy(env, e0):
+                    r.calc_curvature()
+                out[ctype] = {k: getattr(r, k).centre[0, 0] for k in ("curl_bOverB_x", "curl_bOverB_y", "curl_bOverB_z", "bxcvx", "bxcvy", "bxcvz")}
+        env.witness("both_formulations_evaluated")
+        env.claim("derivatives_requested_by_the_xy_formulation", sorted(set(seen)) == sorted({("DDY", "#Bxy"), ("DDX", "#Btxy*#Rxy/#Bxy**2"), ("DDX", "#hy/#Bpxy"), ("DDX", "#Btxy/#Rxy")}))
+        a, bb = out["curl(b/B) with x-y derivatives"], out["curl(b/B)"]
+        for k in a:
+            env.claim_eq("xy_formulation_with_exact_derivatives=curl(b/B)_formulation:" + k, a[k], bb[k])
     return body
 
 
@@ -202,6 +272,11 @@ def _mk_ddy(has_lower, has_upper):
     return body
 
 
+for _b in (1.0, -1.0):
+    OBLIGATIONS.append(Ob("xy_derivative_formulation_bpsign%+d" % int(_b), _mk_xy(_b), tier="quick", family="calc_curvature", encodes=ENC,
+                          desc="'curl(b/B) with x-y derivatives' with exact derivatives along the grid directions equals the 'curl(b/B)' formulation (all six outputs)",
+                          stubs=["DDX/DDY -> exact directional derivatives by AD (their stencils are decided separately: DDX under C06, DDY here)", "RectBivariateSpline -> table",
+                                 "d(hy)/dx from orthogonality of the grid"], bounds="one point, all field values and derivatives symbolic", wall_s=600))
 for _l in (False, True):
     for _u in (False, True):
         OBLIGATIONS.append(Ob("ddy_lower%d_upper%d" % (_l, _u), _mk_ddy(_l, _u), tier="quick", family="DDY", encodes=["hypnotoad.core.mesh:MeshRegion.DDY"],
